@@ -200,7 +200,7 @@ func buildC03(e *engine, p *rt.Package) {
 					r, err := drv.Call(map[string]any{"op": "ts_client_call", "module": clientMod, "service": svc.Name, "method": m.Name, "baseURL": "http://verif.test",
 						"request": fillTSDefaults(tree, info.In), "callOptions": map[string]any{"headers": tsHeaders}, "capture": true, "cannedBody": "{}"})
 					if err != nil {
-						panic(err)
+						panic(infraError(fmt.Sprint(err)))
 					}
 					if !r.OK() {
 						t.Fatalf("%s — the TypeScript client could not be invoked: %s", desc, short(r.Err(), 300))
